@@ -138,6 +138,55 @@ def run(tier):
             ck.violation("order-dependent-verdict", "two orders of the same declarations are not accepted/rejected alike",
                          "order 1:\n%s\norder 2:\n%s" % (dict(cases)["g%d.0" % i], dict(cases)["g%d.1" % i]))
     ck.log("graphs: %d modules %s, %d problems" % (len(cases), dict(stats), mism))
+    # duplicate names (E421 functions, E423 constants, E425 structures, E424 parameters, E426 members):
+    # random declarations over a small pool of names, in two orders; the set of codes is decided by the
+    # name spaces alone (functions / constants / structures; parameters and members also clash with constants)
+    drng = random.Random(ck.seed + 21)
+    dcases, dexp = [], {}
+    for i in range(400 if tier == "quick" else 15000):
+        pool = ["a", "b", "c", "d"]
+        decls, fns, consts, structs, codes = [], [], [], [], set()
+        for _ in range(drng.randint(2, 5)):
+            k = drng.random(); nm = drng.choice(pool)
+            if k < 0.35:
+                ps = [drng.choice(pool + ["p", "q"]) for _ in range(drng.randint(0, 3))]
+                decls.append(("fn", nm, ps)); fns.append(nm)
+            elif k < 0.65:
+                decls.append(("const", nm, None)); consts.append(nm)
+            else:
+                ms = [drng.choice(pool + ["m", "n"]) for _ in range(drng.randint(1, 3))]
+                decls.append(("struct", nm, ms)); structs.append(nm)
+        if len(set(fns)) < len(fns): codes.add("421")
+        if len(set(consts)) < len(consts): codes.add("423")
+        if len(set(structs)) < len(structs): codes.add("425")
+        for kind, nm, xs in decls:
+            if kind == "fn" and (len(set(xs)) < len(xs) or set(xs) & set(consts)): codes.add("424")
+            if kind == "struct" and (len(set(xs)) < len(xs) or set(xs) & set(consts)): codes.add("426")
+        def render_d(d):
+            kind, nm, xs = d
+            if kind == "fn": return "fn %s(%s)\n{\n}\n" % (nm, ", ".join("%s: i32" % x for x in xs))
+            if kind == "const": return "const %s: i32 = 1;\n" % nm
+            return "struct %s\n{\n%s}\n" % (nm, "".join("\t%s: i32,\n" % x for x in xs))
+        for k in range(2):
+            order = list(decls) if k == 0 else drng.sample(decls, len(decls))
+            cid = "dup%d.%d" % (i, k)
+            dcases.append((cid, "".join(render_d(d) for d in order))); dexp[cid] = codes
+    dimpl = C.run_harness("front", dcases, ck.work + "/dups", timeout=1800)
+    dbad = 0; dstat = collections.Counter()
+    for cid, src in dcases:
+        f = dimpl.get(cid, ["missing"])[0]
+        if not (f.startswith("ok") or f.startswith("err codes=")):
+            ck.violation(C.failure_key(f), "compiler failed: " + f[:160], src); continue
+        got = set(x for x in f[len("err codes="):].strip("[]").split(",") if x) if f.startswith("err") else set()
+        dstat["rejected" if got else "accepted"] += 1
+        # a duplicate declaration is poisoned as a whole, which hides the duplicates inside it: every reported
+        # code must be required, at least one required code must be reported, a single required code exactly
+        exp = dexp[cid]
+        if not (got <= exp and bool(got) == bool(exp) and (len(exp) != 1 or got == exp)):
+            dbad += 1
+            ck.violation("duplicate-names", "declarations with %s: the compiler reports %s, the name spaces require %s" % ("duplicate names" if dexp[cid] else "distinct names", sorted(got), sorted(dexp[cid])), src)
+    ck.log("duplicate names: %d modules %s, %d problems" % (len(dcases), dict(dstat), dbad))
+    mism += dbad
     # type legality per position: every written type up to nesting depth 2/3 x every declaration position,
     # real codes vs Model/TypeLegal.v
     from .. import gen_legal, compare_legal
@@ -198,7 +247,7 @@ def run(tier):
         ck.violation("tie-broken:proof", "Props/C11.v no longer checks", getattr(ck, "proof_output", "")[-2000:])
     ck.coverage.update(
         evaluations=len(cases) + len(pc), distinct_nontrivial=len(distinct),
-        rule="random dependency graphs of 2-7 constants and structures (edges through constant expressions, size-of, member types, named array lengths; 35% with back edges), each in two source orders: acyclic must be accepted, cyclic rejected with a cycle code, both orders alike; scoper depths and cycle codes vs Model/Containers.v fed with the edge list in processing order; every written type up to nesting depth 3 (quick) / 4 (thorough) over 9 leaves and 7 constructors at every declaration position (variable, size-of, constant, parameter with and without body, return type, struct member, word member of every size; plain, pub, extern, pub extern): the reported codes must be exactly those of Model/TypeLegal.v; every word of 1-4 members of 1/2/4/8 bytes at every declared size (E380 iff the aligned size exceeds it, per Model/Layout.v); plus generated programs (with constants defined from constants, structures, words, functions) under 3 random permutations of ALL their top-level declarations (same verdict and lli output); distinct = distinct graphs",
+        rule="random dependency graphs of 2-7 constants and structures (edges through constant expressions, size-of, member types, named array lengths; 35% with back edges), each in two source orders: acyclic must be accepted, cyclic rejected with a cycle code, both orders alike; scoper depths and cycle codes vs Model/Containers.v fed with the edge list in processing order; random declarations over a pool of four names in two orders (the codes E421 / E423 / E424 / E425 / E426 must be exactly those the name spaces require); every written type up to nesting depth 3 (quick) / 4 (thorough) over 9 leaves and 7 constructors at every declaration position (variable, size-of, constant, parameter with and without body, return type, struct member, word member of every size; plain, pub, extern, pub extern): the reported codes must be exactly those of Model/TypeLegal.v; every word of 1-4 members of 1/2/4/8 bytes at every declared size (E380 iff the aligned size exceeds it, per Model/Layout.v); plus generated programs (with constants defined from constants, structures, words, functions) under 3 random permutations of ALL their top-level declarations (same verdict and lli output); distinct = distinct graphs",
         graph_stats=dict(stats), problems=mism, permuted_programs=compared,
         samples=[dict(source=cases[0][1], graph=meta[cases[0][0]][1], real=impl.get(cases[0][0], ["?"])[0])])
     ck.assumptions += ["the edge list given to the model is computed by the generator in the order the scoper visits declarations, value expressions, members and array types",
